@@ -346,3 +346,47 @@ package utreexo
 //@   requires h <= 63 && lowOnes(n, h) && hasRoot(n, h)
 //@   ensures popcount(n) >= h + 1
 //@   split h 0 63
+
+//@ func ProofPositions(origTargets []uint64, numLeaves uint64, totalRows uint8) (proofPositions []uint64, nextTargets []uint64)
+//@   requires totalRows <= 63
+//@   loop 1: invariant len(targets) == len(origTargets) && row <= totalRows + 1
+//@   loop 1: decreases int(totalRows) + 1 - int(row)
+//@   loop 2: invariant 0 <= i && i <= len(targets) && len(targets) == len(origTargets)
+//@   loop 2: decreases len(targets) - i
+
+//@ func copySortedFunc(slice []E, less func(a, b E) int) (res []E)
+//@   ensures len(res) == len(slice)
+
+//@ func (p *Pollard) Verify(delHashes []Hash, proof Proof, remember bool) (err error)
+//@   requires p.NumLeaves <= pow2(63)
+//@   requires forall k in 0..len(p.Roots): p.Roots[k] != nil
+//@   ghost rootCandidates, rootMatches
+//@   ensures err == nil && len(delHashes) != 0 ==> len(delHashes) == len(proof.Targets) && rootMatches == len(rootCandidates) && len(rootCandidates) > 0
+//@   loop 1: invariant 0 <= rootMatches && rootMatches <= len(rootCandidates) && rootMatches <= i
+//@   loop 2: invariant len(rootHashes) == len(p.Roots)
+
+//@ func (m *MapPollard) getRoots() (roots []Hash, positions []uint64)
+//@   requires m.TotalRows <= 63
+//@   pure
+//@   ensures len(roots) == len(positions)
+//@   loop 1: invariant len(roots) == iter_1
+
+//@ func (m *MapPollard) getStump() (res Stump)
+//@   requires m.TotalRows <= 63
+//@   pure
+//@   ensures res.NumLeaves == m.NumLeaves
+
+//@ func (m *MapPollard) verify(delHashes []Hash, proof Proof, remember bool) (err error)
+//@   requires m.TotalRows <= 63 && m.NumLeaves <= pow2(63)
+
+//@ func (m *MapPollard) Verify(delHashes []Hash, proof Proof, remember bool) (err error)
+//@   requires m.TotalRows <= 63 && m.NumLeaves <= pow2(63)
+
+//@ func (m *MapPollard) trimProofPos(proofPos []uint64, numLeaves uint64) (res []uint64)
+//@   ensures len(res) <= len(proofPos)
+//@   loop 1: invariant 0 <= i && i <= len(proofPos)
+//@   loop 1: decreases len(proofPos) - i
+
+//@ func (m *MapPollard) VerifyPartialProof(origTargets []uint64, delHashes []Hash, proofHashes []Hash, remember bool) (err error)
+//@   requires m.TotalRows <= 63 && m.NumLeaves <= pow2(63)
+//@   loop 1: invariant 0 <= proofHashIdx
